@@ -29,12 +29,13 @@ BOUNDARY = [0, 8, 9, 128, 129, 160, 161, 256, 257]
 
 
 def tier_params(tier):
-    """models: (constants of Pool.tla, number of placements of the model classes in the real table)."""
+    """models: (constants of Pool.tla, number of placements of the model classes in the real table,
+    every history at every placement? - otherwise the placements take turns)."""
     if tier == "quick":
-        return {"models": [({"CLASSES": 2, "SLOTS": 2, "MAXOPS": 8, "MAXFB": 2}, 2)], "single": {"CLASSES": 1, "SLOTS": 3, "MAXOPS": 8, "MAXFB": 2},
+        return {"models": [({"CLASSES": 2, "SLOTS": 2, "MAXOPS": 8, "MAXFB": 2}, 2, True)], "single": {"CLASSES": 1, "SLOTS": 3, "MAXOPS": 8, "MAXFB": 2},
                 "random": 40, "random_steps": 300, "tlc_timeout": 300}
-    return {"models": [({"CLASSES": 2, "SLOTS": 2, "MAXOPS": 8, "MAXFB": 2}, 6), ({"CLASSES": 3, "SLOTS": 2, "MAXOPS": 9, "MAXFB": 2}, 2),
-                       ({"CLASSES": 2, "SLOTS": 3, "MAXOPS": 10, "MAXFB": 2}, 1)],
+    return {"models": [({"CLASSES": 2, "SLOTS": 2, "MAXOPS": 8, "MAXFB": 2}, 6, True), ({"CLASSES": 3, "SLOTS": 2, "MAXOPS": 9, "MAXFB": 2}, 3, False),
+                       ({"CLASSES": 2, "SLOTS": 3, "MAXOPS": 10, "MAXFB": 2}, 3, False)],
             "single": {"CLASSES": 1, "SLOTS": 4, "MAXOPS": 10, "MAXFB": 2},
             "random": 600, "random_steps": 600, "tlc_timeout": 900}
 
@@ -95,12 +96,14 @@ def placements(table, k, n, rnd):
     return out[:n]
 
 
-def small_requests(hist, model, table, places):
+def small_requests(hist, model, table, places, every=True):
     """Model history x placement -> concrete request on a small PoolSet (real sizes, tiny counts)."""
     k = model["CLASSES"]
     big = max(t[0] for t in table) + 1
     for n, rec in enumerate(hist):
         for pi, place in enumerate(places):
+            if not every and pi != n % len(places):
+                continue
             counts = [1] * len(table)
             for j, rc in enumerate(place):
                 counts[rc] = model_count(model, j + 1)
@@ -116,7 +119,7 @@ def small_requests(hist, model, table, places):
                     ops.append({"o": "alloc", "i": o["i"], "s": sz, "api": api})
                 else:
                     ops.append({"o": "dealloc", "i": o["i"]})
-            yield {"setup": {"kind": "set", "counts": counts}, "arena": 1 << 20, "probe": "blocks" if pi == 0 else "bufs", "ops": ops,
+            yield {"setup": {"kind": "set", "counts": counts}, "arena": 1 << 20, "probe": "blocks" if pi == 0 or not every else "bufs", "ops": ops,
                    "m": {"kind": "small-set", "place": place, "api": api}}
 
 
@@ -226,6 +229,7 @@ class Judge:
         self.vstats = {"runs": 0, "states": 0, "wall_s": 0.0}
         self.accepted = self.rejected = 0
         self.samples = []
+        self.candidates = []      # accepted long traces, corrupted on purpose by selftest()
 
     def run(self, requests, chunk=20000):
         buf = []
@@ -257,12 +261,14 @@ class Judge:
                           "the pool crashed the harness (%s, %s %s) while replaying a history" % (resp.get("st"), crash.get("sig", ""), crash.get("msg", resp.get("panic", ""))),
                           {"profile": profile, "request": rq, "response": resp})
                 continue
-            traces.append(to_trace(rq["id"], resp))
-            by_id[rq["id"]] = (rq, resp)
-            for st in resp["steps"]:
+            for n, st in enumerate(resp["steps"]):
                 self.steps[st["o"] + (":none" if st["none"] else "")] += 1
                 if "panic" in st:
                     v.finding("panic:%s" % st["o"], "operation %s panicked: %s" % (st["o"], st["panic"]), {"profile": profile, "request": rq, "step": st})
+                    resp["steps"] = resp["steps"][:n]      # what a panicked call left behind is not judged
+                    break
+            traces.append(to_trace(rq["id"], resp))
+            by_id[rq["id"]] = (rq, resp)
         if not traces:
             return
         verdicts, vs = memcheck.validate("mem/PoolTrace.tla", "mem/PoolTrace.cfg", traces, "pool_traces", batch=len(traces), workers=6, timeout=self.timeout)
@@ -273,6 +279,8 @@ class Judge:
             rq, resp = by_id[tid]
             if ver["verdict"] == "accept":
                 self.accepted += 1
+                if rq["m"]["kind"] == "random" and len(self.candidates) < 20:
+                    self.candidates.append(to_trace(0, resp))
                 if len(self.samples) < 3 and len(rq["ops"]) >= 5 and self.accepted % 97 == 1:
                     self.samples.append({"build": profile, "setup": rq["setup"], "ops": rq["ops"][:10],
                                          "recorded_steps": [{f: st[f] for f in ("o", "i", "s", "beg", "len", "none")} for st in resp["steps"][:10]], "verdict": "accept"})
@@ -287,6 +295,100 @@ class Judge:
                       % (ver["k"], st.get("o"), st.get("s"), st.get("api"), why, st.get("beg"), st.get("len"), st.get("none"),
                          [c for c in st.get("ctr", []) if c[0] or c[1]][:6], profile, rq["m"]["kind"]),
                       {"profile": profile, "request": rq, "rejected_step": ver["k"], "why": why, "recorded": resp})
+
+
+def corruptions(trace):
+    """Damaged copies of an ACCEPTED trace: (name, expected reason, trace)."""
+    out = []
+    steps = trace["steps"]
+    table = trace["hdr"]["table"]
+
+    def copy():
+        return json.loads(json.dumps(trace))
+
+    def pooled(st):
+        return any(t[2] <= st["beg"] < t[3] for t in table)
+
+    live = {}
+    for n, st in enumerate(steps):
+        if st["o"] == "alloc" and pooled(st):
+            same = [m for m in live.values() if steps[m]["s"] == st["s"] and steps[m]["beg"] != st["beg"]]
+            if same and n > len(steps) // 3:
+                t = copy()
+                t["steps"][n]["beg"] = steps[same[0]]["beg"]
+                out.append(("address-of-a-live-buffer-returned", "slot-handed-out-twice", t))
+                break
+            live[st["i"]] = n
+        elif st["o"] == "dealloc":
+            live.pop(st["i"], None)
+    allocs = [n for n, st in enumerate(steps) if st["o"] == "alloc" and pooled(st) and st["s"] > 0]
+    if allocs:
+        n = allocs[len(allocs) // 2]
+        t = copy()
+        t["steps"][n]["len"] = t["steps"][n]["s"] - 1
+        out.append(("returned-length-shortened", "short-buffer", t))
+        t = copy()
+        c = next(i for i, x in enumerate(table) if x[2] <= steps[n]["beg"] < x[3])
+        t["steps"][n]["ctr"][c][0] += 1
+        out.append(("live-counter-off-by-one", "counters-do-not-conserve", t))
+        t = copy()
+        t["steps"][n]["probes"][0][1] = not t["steps"][n]["probes"][0][1]
+        out.append(("contains-answer-flipped", "contains-wrong", t))
+        t = copy()
+        t["steps"][n]["bad"] = [t["steps"][n]["i"]]
+        out.append(("pattern-of-a-live-buffer-damaged", "live-buffer-corrupted", t))
+    deallocs = [n for n, st in enumerate(steps) if st["o"] == "dealloc" and n + 1 < len(steps)]
+    if deallocs:
+        t = copy()
+        del t["steps"][deallocs[len(deallocs) // 2]]
+        out.append(("release-event-dropped", None, t))
+    return out
+
+
+def selftest(candidates, timeout):
+    """Trace validation must have teeth: every damaged copy of an accepted trace is rejected."""
+    damaged = []
+    for c in candidates:
+        for name, want, t in corruptions(c):
+            t["id"] = len(damaged)
+            damaged.append((name, want, t))
+    if not damaged:
+        raise common.ToolError("no accepted long trace to corrupt")
+    verdicts, _ = memcheck.validate("mem/PoolTrace.tla", "mem/PoolTrace.cfg", [t for _, _, t in damaged], "pool_selftest", workers=4, timeout=timeout)
+    seen = collections.Counter()
+    for name, want, t in damaged:
+        ver = verdicts[t["id"]]
+        if want is None:
+            # a history with one event dropped may still be a history of SOME correct implementation
+            # (e.g. the next recorded reset goes further down anyway): most, not all, are rejected
+            seen[name + (":rejected" if ver["verdict"] == "reject" else ":still-a-valid-history")] += 1
+            continue
+        if ver["verdict"] != "reject" or ver["why"] != want:
+            raise common.ToolError("damaged trace (%s) was not rejected as expected: %s" % (name, ver))
+        seen[name] += 1
+    for name in {n for n, w, _ in damaged if w is None}:
+        if seen[name + ":rejected"] == 0:
+            raise common.ToolError("no trace with a dropped event (%s) was rejected" % name)
+    return dict(seen)
+
+
+def apalache_bonus():
+    """Bonus, never the verdict: the one-class refinement's inductive invariant with a symbolic slot
+    count (specs/mem/PoolInd.tla), discharged by Apalache under a timeout."""
+    import os
+    import subprocess
+    out = {}
+    outdir = os.path.join(common.VERIF, "work", "apalache_pool")
+    for name, args in (("Init => IndInv", ["--init=Init", "--inv=IndInv", "--length=0"]),
+                       ("IndInv /\\ Next => IndInv'", ["--init=IndInit", "--inv=IndInv", "--length=1"]),
+                       ("IndInv => Conservation /\\ Exclusive", ["--init=IndInit", "--inv=Safety", "--length=0"])):
+        try:
+            p = subprocess.run(["apalache-mc", "check", "--cinit=ConstInit"] + args + ["--out-dir=" + outdir, os.path.join(tlc.SPECS, "mem", "PoolInd.tla")],
+                               capture_output=True, text=True, timeout=180)
+            out[name] = "discharged" if "The outcome is: NoError" in p.stdout else "not discharged (exit %d)" % p.returncode
+        except (subprocess.TimeoutExpired, OSError) as e:
+            out[name] = "not run: %s" % type(e).__name__
+    return out
 
 
 def run(tier):
@@ -317,15 +419,16 @@ def run(tier):
     rnd = random.Random(common.seed() * 31 + 5)
     models = []
     states = transitions = unique = 0
-    for model, nplaces in params["models"]:
+    for model, nplaces, every in params["models"]:
         hist, r, cover = enumerate_histories(model, params["tlc_timeout"])
         states += r.distinct
         transitions += r.generated
         unique += len(hist)
         places = placements(table, model["CLASSES"], nplaces, rnd)
         models.append({"constants": model, "distinct_states": r.distinct, "transitions": r.generated, "depth": r.depth, "wall_s": round(r.wall, 1),
-                       "unique_histories": len(hist), "last_operation_kinds": dict(cover), "placements_in_the_real_table": places})
-        judge.run(small_requests(hist, model, table, places))
+                       "unique_histories": len(hist), "last_operation_kinds": dict(cover), "placements_in_the_real_table": places,
+                       "every_history_at_every_placement": every})
+        judge.run(small_requests(hist, model, table, places, every))
     hist, r, cover = enumerate_histories(params["single"], params["tlc_timeout"])
     states += r.distinct
     transitions += r.generated
@@ -334,6 +437,9 @@ def run(tier):
                    "unique_histories": len(hist), "used_for": "single Pool objects"})
     judge.run(single_requests(hist, params["single"], table))
     judge.run(real_requests(table, params), chunk=200)
+
+    damaged = selftest(judge.candidates, params["tlc_timeout"])
+    bonus = apalache_bonus() if tier == "thorough" else "thorough tier only"
 
     v.coverage = {
         "states": states,
@@ -355,6 +461,8 @@ def run(tier):
         "replays_by_kind": dict(judge.kinds),
         "recorded_steps": dict(judge.steps),
         "trace_validation": judge.vstats,
+        "damaged_traces_rejected_by_PoolTrace": damaged,
+        "apalache_inductive_invariant_bonus_not_the_verdict": bonus,
         "samples": judge.samples,
     }
     v.assumptions = [
@@ -363,3 +471,26 @@ def run(tier):
         "releases follow the API contract (the size passed at allocation, each live buffer released at most once)",
     ]
     return v.finish()
+
+
+def replay(path):
+    """bin/check C12 quick --replay FILE: re-runs the recorded request on the current tree and has
+    PoolTrace judge what the pool answers now."""
+    d = json.load(open(path))
+    rep = d["replay"]
+    profile = rep.get("profile", "dev")
+    common.build_harness(profile if profile != "dev" else "dev")
+    rq = dict(rep["request"])
+    rq["id"] = 0
+    rq.pop("modes", None)
+    resp = memcheck.replay([rq], "pool", profile=profile, nworkers=1)[0]
+    if resp.get("st") != "ok":
+        print("REPLAY C12: the harness still dies: %s" % json.dumps(resp)[:400])
+        return 1
+    if any("panic" in st for st in resp["steps"]):
+        print("REPLAY C12: an operation still panics: %s" % [st["panic"] for st in resp["steps"] if "panic" in st][:1])
+        return 1
+    verdicts, _ = memcheck.validate("mem/PoolTrace.tla", "mem/PoolTrace.cfg", [to_trace(0, resp)], "pool_replay", workers=1, timeout=300)
+    ver = verdicts[0]
+    print("REPLAY C12: %s %s" % (ver["verdict"], ("at step %d: %s" % (ver["k"], ver["why"])) if ver["verdict"] != "accept" else ""))
+    return 0 if ver["verdict"] == "accept" else 1
